@@ -142,6 +142,13 @@ Sine ==
     /\ Check("C06:sinusoid_power_is_half_amplitude_squared", Near(e.psq, Q, e.bound))
     /\ Check("C06:enbw_is_fs_S2_over_S12", Near(e.enbwq, e.enbwx, 4))
 
+(* single-bin analyses: n is the number of segments actually averaged *)
+Single ==
+    LET e == Ev IN
+    /\ Check("C10:navg_is_number_of_averages", e.n = e.nD /\ e.K = e.nD /\ e.n >= 1)
+    /\ Check("C10:Gxx_error_is_one_over_sqrt_n", e.exx <= 4097 /\ Near(e.exx * e.exx * e.nD, 16777216, e.exx * e.nD + e.nD + 64))
+    /\ Check("C10:Gxx_dev_is_Gxx_times_error", Near(e.dxx, e.exx, 2))
+
 Gain ==
     LET e == Ev IN
     /\ Check("C07:gain_recovered", Near(e.hg[1], Q, 8) /\ Near(e.hg[2], 0, 8))     \* H/g = 1
@@ -170,6 +177,7 @@ Step ==
          [] Ev.t = "refbin" -> RefBin
          [] Ev.t = "winsum" -> WinSum
          [] Ev.t = "sine" -> Sine
+         [] Ev.t = "single" -> Single
          [] Ev.t = "gain" -> Gain
          [] Ev.t = "delay" -> Delay
     /\ l' = l + 1 /\ UNCHANGED tid
